@@ -923,7 +923,8 @@ func (s *Stream) Kind() (kind Kind, size uint64, err error) {
 		// is done here because many decoders require allocating an input
 		// buffer matching the value size. Checking it here protects those
 		// decoders from inputs declaring very large value size.
-		if inList && s.size > listLimit {
+		// (the list limit is read again: readKind has consumed the value's header from it)
+		if inList, listLimit := s.listLimit(); inList && s.size > listLimit {
 			s.kinderr = ErrElemTooLarge
 		} else if s.limited && s.size > s.remaining {
 			s.kinderr = ErrValueTooLarge
